@@ -85,6 +85,12 @@ def gen_case(rng, tier):
         spb = rng.weighted([(1, 1), (2, 2), (3, 1), (4, 3), (8, 3), (16, 2), (24, 1), (64, 1), (4096, 1), (16384, 1), (65536, 1)])
         maxb = 40 if tier == "thorough" else 12
         nblocks = rng.randint(1, maxb if spb < 4096 else (4 if spb == 4096 else 3))
+        many = rng.chance(0.06)
+        if many:
+            # a table of more than 16384 entries (tiny blocks keep the image small): whatever a reader preloads or caches
+            # for the first entries, the later ones mean the same
+            spb = rng.pick([1, 2])
+            nblocks = rng.randint(16385, 17300)
         bs = spb * SECTOR
         cut = rng.weighted([(0, 3), (SECTOR * rng.randrange(0, spb), 3), (rng.randrange(0, bs), 1)])
         size = max(SECTOR if spb > 1 else 1, nblocks * bs - cut)
@@ -100,6 +106,8 @@ def gen_case(rng, tier):
         present = []
         for b in range(nblocks):
             p = {"all": True, "none": False, "alt": b % 2 == 0, "rand": rng.chance(0.6)}[mode]
+            if many:
+                p = b >= 16380 and rng.chance(0.5) or rng.chance(0.001)
             present.append(p)
         order = [b for b in range(nblocks) if present[b]]
         place = rng.weighted([("asc", 2), ("desc", 2), ("random", 4), ("gaps", 2), ("high", 1), ("logical", 2)])
@@ -154,6 +162,10 @@ def gen_case(rng, tier):
             if n > 4_000_000:
                 n = 4_000_000
             reqs.append(["bytes", off, n])
+    if c.get("max_entries", 0) > 16384:
+        for _ in range(6):
+            b = rng.randrange(16380, nblocks if kind != "fixed" else 1)
+            reqs.append(["sectors", b * spb_, min(nsect - b * spb_, rng.randint(1, 4 * spb_))])
     c["reqs"] = reqs
     return c
 
